@@ -106,7 +106,10 @@ PROPS = {
     'C06': {
         'level': 'exploration',
         'rule': 'distinct (model with generated catch placement, error code / error source) pairs',
-        'parts': [part('error', ERROR, 2000, 50000, judge=True, props=['C06'], chunk=100)],
+        'parts': [
+            part('error', ERROR, 2000, 50000, judge=True, props=['C06'], chunk=100),
+            part('sqlite', ERROR, 60, 1200, judge=True, props=['C06'], store='sqlite', restart=0.6, chunk=8),
+        ],
     },
     'C14': {
         'level': 'exploration',
@@ -145,6 +148,8 @@ PROPS = {
             part('matrix', ACTIONS, 500, 10000, monitors=[M.mon_c01], props=['C01'], sub='matrix'),
             part('duel', ACTIONS, 300, 6000, monitors=[M.mon_c01], props=['C01'], sub='duel'),
             part('b2b', ACTIONS, 400, 8000, monitors=[M.mon_c01], props=['C01'], sub='b2b'),
+            part('flow-sqlite', FLOW, 40, 800, monitors=[M.mon_c01], props=['C01'], sub='plain', variants=1, scheds=['cur-fifo', 'cur-chaos'], snap='live', store='sqlite', restart=0.6, chunk=8),
+            part('error-sqlite', ERROR, 40, 800, monitors=[M.mon_c01], props=['C01'], store='sqlite', restart=0.6, chunk=8, snap='live'),
         ],
     },
     'C02': {
@@ -160,6 +165,8 @@ PROPS = {
             part('gen', GEN, 200, 4000, monitors=[M.mon_c02], props=['C02'], chunk=60, sub='gen'),
             part('sub', SUB, 200, 4000, monitors=[M.mon_c02], props=['C02'], chunk=60),
             part('b2b', ACTIONS, 400, 8000, monitors=[M.mon_c02], props=['C02'], sub='b2b'),
+            part('flow-sqlite', FLOW, 40, 800, monitors=[M.mon_c02], props=['C02'], sub='plain', variants=1, scheds=['cur-fifo', 'cur-chaos'], snap='live', store='sqlite', restart=0.6, chunk=8),
+            part('error-sqlite', ERROR, 40, 800, monitors=[M.mon_c02], props=['C02'], store='sqlite', restart=0.6, chunk=8, snap='live'),
         ],
     },
     'C03': {
@@ -173,6 +180,8 @@ PROPS = {
             part('loop', FLOW, 60, 600, monitors=[M.mon_c03], props=['C03'], sub='loop', variants=2, scheds=QUIESCENT),
             part('error', ERROR, 300, 6000, monitors=[M.mon_c03], props=['C03'], chunk=60, second_error=True),
             part('b2b', ACTIONS, 400, 8000, monitors=[M.mon_c03], props=['C03'], sub='b2b'),
+            part('flow-sqlite', FLOW, 40, 800, monitors=[M.mon_c03], props=['C03'], sub='plain', variants=1, scheds=['cur-fifo', 'cur-chaos'], snap='rows', store='sqlite', restart=0.6, chunk=8),
+            part('error-sqlite', ERROR, 40, 800, monitors=[M.mon_c03], props=['C03'], store='sqlite', restart=0.6, chunk=8, snap='rows'),
         ],
     },
     'C08': {
@@ -188,6 +197,8 @@ PROPS = {
             part('hooks', GEN, 200, 4000, monitors=[M.mon_c08], props=['C08'], chunk=60, sub='hooks'),
             part('sub', SUB, 200, 4000, monitors=[M.mon_c08], props=['C08'], chunk=60),
             part('b2b', ACTIONS, 400, 8000, monitors=[M.mon_c08], props=['C08'], sub='b2b'),
+            part('flow-sqlite', FLOW, 40, 800, monitors=[M.mon_c08], props=['C08'], sub='plain', variants=1, scheds=['cur-fifo', 'cur-chaos'], snap='live', store='sqlite', restart=0.6, chunk=8),
+            part('error-sqlite', ERROR, 40, 800, monitors=[M.mon_c08], props=['C08'], store='sqlite', restart=0.6, chunk=8, snap='live'),
         ],
     },
     'C11': {
@@ -221,6 +232,7 @@ PROPS = {
             part('plain', FLOW, 700, 8000, judge=True, props=['C04'], sub='plain', variants=3, scheds=ALLSCHED),
             part('loop', FLOW, 60, 600, judge=True, props=['C04'], sub='loop', variants=2, scheds=QUIESCENT),
             part('mixed', FLOW, 120, 1500, judge=True, props=['C04'], sub='mixed', variants=2, scheds=QUIESCENT),
+            part('sqlite', FLOW, 40, 800, judge=True, props=['C04'], sub='plain', variants=1, scheds=['cur-fifo', 'cur-chaos'], store='sqlite', restart=0.6, chunk=8),
         ],
     },
 }
